@@ -413,7 +413,9 @@ def run_circuits(shard, rec, B):
                 rec.refusal("ValueError:impossible record")
             except Exception as e:
                 got = "%s: %s" % (type(e).__name__, e)
-            if possible:
+            if getattr(rec, "lenient", False) and got not in ("returned", "ValueError"):
+                rec.refusal("bwd:" + got.split(":")[0])     # element-type shards: a refusal is not an answer
+            elif possible:
                 lg, lp, lr = B.state(S)
                 good = got == "returned" and lr == 0 and not O.tableau_problems(lg, lp, lr) and O.state_key(lg, lp, lr) == G.key()
                 rec.check("bwd.state", good, case, True, expected=[O.show(np.array(a), b) for a, b in G.key()[1]],
